@@ -109,6 +109,28 @@ def idle_sweep_cases(tier, seed):
                     yield dict(base, calls=calls)
 
 
+ERROR_OPS = [{"op": "get", "key": "bad key"}, {"op": "set", "key": "k", "value": b"v", "expire": "x"}, {"op": "incr", "key": "t", "delta": "x"},
+             {"op": "cas", "key": "t", "value": b"v", "cas": "not-a-number"}, {"op": "get_many", "keys": ["t", "bad key"]},
+             {"op": "set", "key": "k" * 251, "value": b"v"}, {"op": "touch", "key": "t", "expire": None}, {"op": "delete_many", "keys": ["a", "b\n"]}]
+
+
+def error_then_interrupt_cases(tier, seed):
+    for kind, extra in c01.STACKS:
+        for ie in (False, True):
+            for r in ERROR_OPS:
+                if kind.startswith("hash") and r["op"] in ("get_many", "delete_many"):
+                    continue
+                base = {"kind": kind, "cfg": dict(extra, ignore_exc=ie), "follow": True,
+                        "calls": [{"op": {"op": "get", "key": "warmup"}}, {"op": r}] + c01.FOLLOW}
+                dry = interpret(base)
+                for ev_kind, nth in dry.events_by_call[1]:
+                    for f in faultlab.faults_for_event(ev_kind, nth, True):
+                        calls = [dict(c) for c in base["calls"]]
+                        calls[1] = dict(calls[1], faults=[f])
+                        yield dict(base, calls=calls)
+                yield base
+
+
 def history_strategy(tier):
     return c01.history_strategy(tier, interrupts=True)
 
@@ -116,6 +138,7 @@ def history_strategy(tier):
 PARTS = [
     Part("interruption-sweep", "enum", check, cases=sweep_cases, exhaustive=True),
     Part("idle-expiry-interruptions", "enum", check, cases=idle_sweep_cases, exhaustive=True),
+    Part("input-error-then-interruption", "enum", check, cases=error_then_interrupt_cases, exhaustive=True),
     Part("random-histories", "hyp", check, strategy=history_strategy,
          examples={"quick": 300, "thorough": 12000}, shards={"quick": 4, "thorough": 16}),
 ]
